@@ -153,6 +153,7 @@ func TestIgnore(t *testing.T) {
 	ev.Assume("go/ast.NewCommentMap (standard library) is the documented attachment rule for comments; the oracle uses it to find the node a directive is attached to")
 	ev.Assume("the names and non-default flags of the registered analyzers (simple, staticcheck, stylecheck, unused) are read from the analyzer tables; enabled sets are evaluated per the documentation of the checks option for the generated forms all | inherit | id | -id")
 	ev.Assume("an inserted //lint: comment does not change what the checks themselves find (the templates avoid the comment-sensitive checks S1008, ST1000, ST1020-ST1022); verified per case by the control copy and the exact comparison of all other problems")
+	ev.Assume("the result cache of staticcheck is not under test: all shards of an invocation share one STATICCHECK_CACHE directory below VERIF_OUT, warmed once by the calibration run")
 	ev.Assume("U1000: asserted only for the exact name U1000 (problems of unused objects on the attached line disappear, no new ones appear) and for directives none of whose names can match U1000 (unchanged); names matching U1000 only by case or glob are counted, not judged (the statement sets U1000 aside)")
 	loadCatalogue()
 	cache, hints, err := sharedCache()
@@ -427,6 +428,7 @@ func TestCorpus(t *testing.T) {
 
 func TestReplay(t *testing.T) {
 	if f := ev.ReplayFile(); f != "" {
+		defer dropPrivateCache() // replay mode runs this test alone
 		replayFile(t, f, "TestReplay")
 	}
 }
